@@ -64,7 +64,7 @@ func runC19(seed int64, tier string, sc *Script) map[string]any {
 	userCfgBytes := []byte(`{"user":"config"}`)
 	for _, ver := range []string{"10", "11"} {
 		for _, at := range []string{"empty", "valid", "invalid"} {
-			for _, cfg := range []string{"none", "valid", "invalid", "emptytype"} {
+			for _, cfg := range []string{"none", "valid", "validempty", "invalid", "emptytype"} {
 				for _, layers := range []int{0, 2} {
 					for _, subject := range []int{0, 1} {
 						for _, created := range []string{"absent", "valid", "malformed"} {
@@ -74,6 +74,10 @@ func runC19(seed int64, tier string, sc *Script) map[string]any {
 								switch cfg {
 								case "valid":
 									d := content.NewDescriptorFromBytes("application/vnd.verif.config", userCfgBytes)
+									opts.ConfigDescriptor = &d
+								case "validempty":
+									// the caller's own config happens to be the two bytes "{}"
+									d := content.NewDescriptorFromBytes("application/vnd.verif.config", []byte("{}"))
 									opts.ConfigDescriptor = &d
 								case "invalid":
 									d := content.NewDescriptorFromBytes("bad media/type!!", userCfgBytes)
@@ -138,6 +142,7 @@ func runC19(seed int64, tier string, sc *Script) map[string]any {
 									res = "res=err:other(" + strings.ReplaceAll(err.Error(), " ", "_") + ")"
 								}
 								sc.Op(ev+" "+res, "pk run ver=%s at=%s cfg=%s layers=%d subject=%d created=%s target=%s", ver, at, cfg, layers, subject, created, target)
+								sc.Op(res, "pk result ver=%s at=%s cfg=%s layers=%d subject=%d created=%s target=%s", ver, at, cfg, layers, subject, created, target)
 								evals++
 								sc.Count(strings.SplitN(res, " ", 2)[0])
 								if err == nil && created == "valid" {
